@@ -58,6 +58,10 @@ class Children:
     def run(self, sc):
         for k, (_, p) in enumerate(self.procs):
             msg = {'sc': sc, 'decoys': [self.decoy(sc, k)] if k else []}
+            if k == len(self.procs) - 1:
+                # the last child also runs the scenario a third time with another simulation built and run between the
+                # construction of its Simulation and its start()
+                msg['interleave'] = self.decoy(sc, k + 1)
             p.stdin.write(json.dumps(msg) + '\n')
             p.stdin.flush()
         out = []
@@ -86,10 +90,10 @@ class C10:
     rule = ("scenarios (all shipped pairings, wide DAG fronts with several ready tasks and few machines, shipped DelayModel with generated "
             "prob/degree/seed/distribution) are run twice in each of K child interpreters started with PYTHONHASHSEED 0..K-1 (quick K=3, "
             "thorough K=8); child k>0 runs a related decoy simulation first (other machine speeds / delay seed), so interpreters differ in "
-            "history too; non-trivial = some algorithm.run call saw >= 2 ready tasks (reported by the child); distinct = distinct "
+            "history too, and the last child runs the scenario a third time with another simulation built and run between the construction of its Simulation and its start(); non-trivial = some algorithm.run call saw >= 2 ready tasks (reported by the child); distinct = distinct "
             "canonical scenario JSON")
     level_text = ("exploration: digests of the per-timestep table (minus *-algtime columns), the task table and the event log must be "
-                  "equal between the two in-process runs and between all K interpreters")
+                  "equal between the in-process runs (plain, repeated, interleaved with another simulation) and between all K interpreters")
     assumptions = ["children run through the same pass-through tracing harness as every other check (step budget, ready-task counts)",
                    "child k>0 first runs a related decoy simulation (other machine speeds, other delay seed) so that interpreters differ in history as well as in hash seed",
                    "each child runs in its own directory with the same relative config path, so the 'config' column is comparable"]
@@ -123,6 +127,9 @@ class C10:
                 if r['first'] != r['second']:
                     out.append(O.V('C10', 'not_repeatable_in_process', f"PYTHONHASHSEED={hs}: two runs in one interpreter differ: "
                                    f"{diff_keys(r['first'], r['second'])}"))
+                if 'third' in r and r['third'] != r['first']:
+                    out.append(O.V('C10', 'depends_on_other_simulation', f"PYTHONHASHSEED={hs}: a run whose Simulation was built before another "
+                                   f"simulation was built and run in the same interpreter differs from the plain run: {diff_keys(r['first'], r['third'])}"))
             ref_hs, ref = res[0]
             for hs, r in res[1:]:
                 if r['first'] != ref['first']:
